@@ -20,13 +20,17 @@ from ..spec import views
 
 META = {
     "level": "other",
-    "explanation": ("Exhaustive enumeration of partitions, pairs of partitions and adapt() sequences up to the stated "
+    "explanation": ("event_dict and comb_set are PROVED for partitions of every size: loop-invariant verification conditions generated from the "
+                    "AST of the real functions (engine LV, sidecar contracts in props/c13_lv.py: result maps each scenario to its block; result is "
+                    "the coarsest common refinement with non-empty blocks; no KeyError/IndexError/ValueError; arguments not written), z3.  "
+                    "The rest is bounded: exhaustive enumeration of partitions, pairs of partitions and adapt() sequences up to the stated "
                     "number of scenarios against set-theoretic specifications; structural postconditions on the "
                     "per-scenario decision rules (column sharing within an event, injectivity across events, "
                     "coefficients exactly on the declared mask); rejection of illegal declarations."),
     "bounds": "partitions of <= 5 scenarios (quick: <= 4) for event_dict/comb_set, adapt sequences on <= 4 scenarios, rule_var on 3 scenarios x all 5 partitions x 2 variables x 3 dependency masks",
-    "trusted_base": ["CPython (the partition code is pure Python over lists and dicts)", "ShimCSR for reading rule matrices"],
-    "assumptions": ["A-BOUND(C13): partition functions are checked exhaustively up to the bound, not for all sizes"],
+    "trusted_base": ["CPython (the partition code is pure Python over lists and dicts)", "engine LV's encoding of lists/dicts/strings (rverif/lv.py docstring: mathematical ints, no aliasing of inner lists, S-INJ string keys injective; A-CARD is Lean-checked: card_of_range)", "ShimCSR for reading rule matrices"],
+    "assumptions": ["A-BOUND(C13): DecVar.evtadapt, the dependency masks, rule_var and the operator labels are checked exhaustively up to the stated bounds, not for all sizes (event_dict / comb_set are proved for all sizes by engine LV; if a rewrite takes them outside LV's Python subset the obligation is reported as not-translated and only the bounded enumeration stands)",
+                    "A-LV: Python integers are mathematical, inner lists are not aliased, str(a)+sep+str(b) is injective in (a, b)"],
 }
 
 
